@@ -4,6 +4,7 @@ rendering are in the second half of this file).
 -/
 import Nsq.Proofs.ChanCount
 import Nsq.Proofs.ChanInvA
+import Nsq.Proofs.ChanInvOk
 import Nsq.Props.C02
 import Nsq.Props.C01
 import Nsq.Model.ChanStats
@@ -18,6 +19,10 @@ def ReachableA (conf : Conf) (c : Chan) : Prop :=
 theorem reachableA_invA {conf : Conf} (hconf : 0 ≤ conf.maxRdy) {c : Chan} (h : ReachableA conf c) : InvA conf c := by
   obtain ⟨eph, cap, ops, hat, rfl⟩ := h
   exact run_invA conf hconf ops hat (invA_init conf eph cap)
+
+/-- the executable form of the atomic invariant holds in every state reachable by atomic ops -/
+theorem invOkA_sound {conf : Conf} (hconf : 0 ≤ conf.maxRdy) {c : Chan} (h : ReachableA conf c) : invOkA conf c = true :=
+  invOkA_of_invA (reachableA_invA hconf h)
 
 def nInflight (c : Chan) : Nat := c.msgs.countP isInflight
 def nDeferred (c : Chan) : Nat := c.msgs.countP isDeferred
